@@ -107,6 +107,10 @@ class NoInternalError(Monitor):
             return []
         if res.exc_type in DOCUMENTED_REJECTIONS.get(move[0], ()):
             return []
+        if move[0] == "start" and res.exc_type == "InvalidWorkflowStatusTransition" and post["status"] == st.FAILED:
+            # documented rejection: a running request on a workflow that already failed while its
+            # input/vars were rendered (the run-time error is recorded; C11 judges that)
+            return []
         e = res.extra.get("exc_obj")
         sig = {"op": move[0], "exc_type": res.exc_type, "site": exc_site(e) if e else None}
         a = res.extra.get("action")
